@@ -102,6 +102,43 @@ theorem refusals_are_steps_of_pre :
     (pre.filter (fun s => s.kind == .raise)).length ≥ (refusals.filter (fun r => r.fn == "generate")).length ∧
     (refusals.filter (·.afterParse)).length ≥ 3 := by decide
 
+/-! ### every path, context managers included -/
+
+/-- On the extracted tables with the steps of `chdir()` itself put in place of `with chdir(output):` (its `__enter__` part: save the
+directory, switch; its `__exit__` part: switch back) and with the effects of module-level helpers inlined at their calls: no step
+up to the write loop creates a directory, opens a file for writing, writes or otherwise changes the file system, and no step in or
+after the write loop may raise — for `chdir(path)` and for `chdir(None)`. A context manager (or helper) that creates the directory
+it enters breaks this; the driver's `ctxRefuter` then names the step. -/
+theorem effects_after_raises_with_context_managers :
+    effectsAfterRaises chdirSome pre loopBody post = true ∧ effectsAfterRaises chdirNone pre loopBody post = true := by decide
+
+/-- ANY path through `generate()` — everything up to the write loop including the steps inside the context manager it enters, ANY
+number `n` of loop iterations (modules), what follows: no `mkdir` / `open` / `write` / other file-system effect is followed, anywhere
+later on the path, by a step that may raise. So whichever step a run fails at, no effect has happened before it: a failed run has
+created no file AND NO DIRECTORY (directories are not part of the modelled file system; this ordering is what covers them). -/
+theorem no_effect_before_last_raise (cs : List CStep) (hc : cs = chdirSome ∨ cs = chdirNone) (n : Nat) :
+    noEffectBeforeRaise (fullPath cs pre loopBody post n) = true := by
+  apply fullPath_ordered
+  rcases hc with h | h <;> rw [h]
+  · exact effects_after_raises_with_context_managers.1
+  · exact effects_after_raises_with_context_managers.2
+
+/-- non-vacuity: the path with two modules has effects, may-raise steps, and the context manager's own steps (the switch of the
+directory is one of them and may raise); … -/
+example : (fullPath chdirSome pre loopBody post 2).any (·.effect) = true ∧
+    (fullPath chdirSome pre loopBody post 2).any (·.raises) = true ∧
+    ((inlineCtx chdirSome pre).filter (·.raises)).length ≥ ((pre.map flatOfStep).filter (·.raises)).length + 2 ∧
+    (fullPath chdirSome pre loopBody post 2).length > (fullPath chdirSome pre loopBody post 0).length := by decide +kernel
+
+/-- … the ordering predicate does reject an effect that precedes a failure, and a context manager that creates the directory it
+enters (one member of the family: `mkdir` before the `try`) is refuted with the step named. -/
+example : noEffectBeforeRaise [⟨true, false, "mkdir"⟩, ⟨false, true, "parse"⟩] = false ∧
+    (let cm : List CStep := [⟨.saveCwd, "prev"⟩, ⟨.mkdir, "target.mkdir"⟩, ⟨.tryBegin, ""⟩, ⟨.chdirTarget, "target"⟩, ⟨.yield, ""⟩,
+        ⟨.finallyBegin, ""⟩, ⟨.chdirSaved, "prev"⟩, ⟨.tryEnd, ""⟩]
+     effectsAfterRaises cm pre loopBody post = false ∧
+     effectRefuter cm pre loopBody post = some "effect-before-raise chdir(): target.mkdir" ∧
+     noEffectBeforeRaise (fullPath cm pre loopBody post 1) = false ∧ restoresCwd cm = true) := by decide
+
 /-! ### working directory -/
 
 /-- the context manager restores the working directory whichever of its steps raises —
